@@ -61,9 +61,23 @@ def observe(exe_dir, b, ref):
         with open(os.path.join(d, fname), "wb") as f:
             f.write(content)
         toks = list(b["toks"])
+        # the first b["env"] tokens come from LBZIP2, BZIP2, BZIP (in that order): any split into three consecutive
+        # groups is the same command line, however the blanks are laid out; a variable without tokens may be unset,
+        # empty or blank
+        rnd = random.Random(b["_i"] * 7919 + 1)
+        k = b["env"]
+        c1 = rnd.randint(0, k)
+        c2 = rnd.randint(c1, k)
+        groups = [toks[:c1], toks[c1:c2], toks[c2:k]]
         env = {}
-        for var, t in zip(("LBZIP2", "BZIP2", "BZIP"), toks[: b["env"]]):
-            env[var] = t
+        for var, g in zip(("LBZIP2", "BZIP2", "BZIP"), groups):
+            if g:
+                seps = [rnd.choice([" ", "  ", "\t", " \t "]) for _ in g]
+                env[var] = rnd.choice(["", " ", "\t ", "  "]) + "".join(t + sp for t, sp in zip(g[:-1], seps)) + g[-1] + rnd.choice(["", " ", " \t", "   "])
+            else:
+                v = rnd.choice([None, None, "", " ", " \t "])
+                if v is not None:
+                    env[var] = v
         argv = toks[b["env"]:] + [fname]
         link = os.path.join(d, b["name"])
         os.symlink(os.path.join(exe_dir, "lbzip2"), link)
